@@ -82,6 +82,12 @@ type State struct {
 	Panic    *PanicInfo
 	Boxes    map[string]Value // boxed struct values behind interface atoms
 	Old      map[string]*Term // heap snapshot at function entry (for old())
+	// Epoch counts, per component prefix, how often the prefix has been havocked. A
+	// component that is first read after its prefix was havocked is not the entry
+	// component: its atom is named after the epoch, so the pre- and post-state of a
+	// call (or loop) never share an atom by accident.
+	Epoch    map[string]int
+	OldEpoch map[string]int // epochs at the snapshot Old was taken (nil: function entry)
 	OldCells map[*Cell]Value
 	Trace    []string // block trace for diagnostics
 	Dead     bool
@@ -131,6 +137,7 @@ func (s *State) Fork() *State {
 	}
 	n.Events = append([]Event(nil), s.Events...)
 	n.Ghost = copyMap(s.Ghost)
+	n.Epoch = copyMap(s.Epoch)
 	n.Boxes = copyMap(s.Boxes)
 	n.Trace = append([]string(nil), s.Trace...)
 	if s.Panic != nil {
@@ -150,17 +157,39 @@ func shortKey(s string) string {
 
 // ---------- heap components ----------
 
+// epochOf sums the epochs of every havocked prefix that covers component name.
+func epochOf(epochs map[string]int, name string) int {
+	n := 0
+	for p, e := range epochs {
+		if name == p || strings.HasPrefix(name, p+".") || strings.HasPrefix(name, p+"@") {
+			n += e
+		}
+	}
+	return n
+}
+
+func compAtom(name, sort string, epoch int) *Term {
+	if epoch == 0 {
+		return Atom("H0."+name, sort)
+	}
+	return Atom(fmt.Sprintf("He%d.%s", epoch, name), sort)
+}
+
 func (s *State) heapComp(name, sort string) *Term {
 	name = shortKey(name)
 	if t, ok := s.Heap[name]; ok {
 		return t
 	}
-	t := Atom("H0."+name, sort)
+	t := compAtom(name, sort, epochOf(s.Epoch, name))
 	s.Heap[name] = t
 	s.lenAxiom(name, t)
 	if s.Old != nil {
 		if _, ok := s.Old[name]; !ok {
-			s.Old[name] = t
+			o := compAtom(name, sort, epochOf(s.OldEpoch, name))
+			s.Old[name] = o
+			if o.Op != t.Op {
+				s.lenAxiom(name, o)
+			}
 		}
 	}
 	return t
